@@ -29,6 +29,7 @@ var checks = map[string]func(prop, tier string) int{
 	"C05": func(p, t string) int { return algochk.MainWith(p, t, filterchk.C05SubPhase) },
 	"C06": readchk.Main,
 	"C08": livechk.MainC08,
+	"C09": livechk.MainC09,
 	"C10": fieldchk.Main,
 	"C12": phchk.Main,
 	"C13": matchchk.MainC13,
